@@ -233,6 +233,60 @@ func configs3(r *ev.Run) {
 		}
 	}
 	runtime.GOMAXPROCS(16)
+	// unions of closed dyadic boxes whose faces lie exactly on grid planes, with the tightest truthful filter there
+	// is: "the region touches the surface of one of the boxes" (closed sets). A block whose box is even slightly
+	// smaller than the cells it stands for is then skipped although its cells are cut by a face on its own border.
+	for _, bs := range [][][2]model3d.Coord3D{
+		{{model3d.XYZ(0, 0, 0), model3d.XYZ(1, 1, 1)}, {model3d.XYZ(-1, -1, -1), model3d.XYZ(-0.25, -0.25, -0.25)}},
+		{{model3d.XYZ(0, 0, 0.5), model3d.XYZ(2, 1, 1.5)}, {model3d.XYZ(-1.5, -1.5, -1.5), model3d.XYZ(-0.5, -0.5, -0.5)}},
+		{{model3d.XYZ(-1, -1, -1), model3d.XYZ(1, 1, 0)}, {model3d.XYZ(-0.5, -0.5, 0), model3d.XYZ(0.5, 0.5, 1)}, {model3d.XYZ(1, -1, -1), model3d.XYZ(2, 0, 1)}},
+	} {
+		var js model3d.JoinedSolid
+		for _, b := range bs {
+			js = append(js, model3d.NewRect(b[0], b[1]))
+		}
+		touches := func(rc *model3d.Rect) bool {
+			for _, b := range bs {
+				// closed boxes intersect ...
+				if rc.MinVal.X > b[1].X || rc.MinVal.Y > b[1].Y || rc.MinVal.Z > b[1].Z || rc.MaxVal.X < b[0].X || rc.MaxVal.Y < b[0].Y || rc.MaxVal.Z < b[0].Z {
+					continue
+				}
+				// ... and the region is not strictly inside the box
+				if !(rc.MinVal.X > b[0].X && rc.MinVal.Y > b[0].Y && rc.MinVal.Z > b[0].Z && rc.MaxVal.X < b[1].X && rc.MaxVal.Y < b[1].Y && rc.MaxVal.Z < b[1].Z) {
+					return true
+				}
+			}
+			return false
+		}
+		for _, delta := range []float64{0.25, 0.125} {
+			runtime.GOMAXPROCS(1)
+			want := faces(model3d.MarchingCubes(js, delta))
+			wantSearch := faces(model3d.MarchingCubesSearch(js, delta, 2))
+			for _, procs := range []int{1, 3} {
+				runtime.GOMAXPROCS(procs)
+				r.Eval(2)
+				rejected := 0
+				g := func(rc *model3d.Rect) bool {
+					v := touches(rc)
+					if !v {
+						rejected++
+					}
+					return v
+				}
+				c := cfgCase{"MarchingCubesFilter", fmt.Sprintf("union of %d dyadic boxes", len(bs)), procs, "box-surfaces", delta, ""}
+				if got := faces(model3d.MarchingCubesFilter(js, g, delta)); got != want {
+					r.Violation("config/MarchingCubesFilter/box-surfaces", "face set differs from unfiltered marching cubes (filter: the region touches the surface of a box)", c)
+				}
+				if got := faces(model3d.MarchingCubesSearchFilter(js, g, delta, 2)); got != wantSearch {
+					r.Violation("config/MarchingCubesSearchFilter/box-surfaces", "face set differs from MarchingCubesSearch (filter: the region touches the surface of a box)", c)
+				}
+				if rejected > 0 {
+					r.NontrivialKey(fmt.Sprintf("mc-filter-box-surfaces/%d/%v/%d", len(bs), delta, procs))
+				}
+			}
+		}
+	}
+	runtime.GOMAXPROCS(16)
 	// coarse-to-fine on solids whose features are larger than the coarse spacing
 	for _, sd := range []solid3{
 		{"sphere", &model3d.Sphere{Center: model3d.XYZ(0.1, 0.2, -0.1), Radius: 1}, 0.25},
